@@ -103,6 +103,9 @@ def solve(
                 # TODO shouldn't this use intersection?
                 bottom = unite_values(bottom, bound.value)
         elif isinstance(bound, UpperBound):
+            # Ignore upper bounds to Any
+            if isinstance(bound.value, AnyValue) and top is not TOP:
+                continue
             if top is TOP or top.is_assignable(bound.value, ctx):
                 top = bound.value
             elif bound.value.is_assignable(top, ctx):
